@@ -595,10 +595,12 @@ class Engine:
             outs = []
             if e.get("arrow"):
                 for s, p in self.ev(st, fr, e["e"]):
-                    outs.append((s, ("fld", self.deref(p), e["n"])))
+                    lv_ = ("fld", self.deref(p), e["n"])
+                    outs.append((s, s.mem.get(("refbind", lv_), lv_)))
             else:
                 for s, o in self.ev_lv(st, fr, e["e"]):
-                    outs.append((s, ("fld", o, e["n"])))
+                    lv_ = ("fld", o, e["n"])
+                    outs.append((s, s.mem.get(("refbind", lv_), lv_)))
             return outs
         if k == "this":
             return [(st, fr.this)]
@@ -1059,6 +1061,15 @@ class Engine:
         ie = ini["e"]
         it = ie.get("t") or {}
         outs = []
+        # a reference member is bound to an object, not assigned a value: later uses of the member designate that object
+        rec = self.db.rec_by_id.get(fr.fn.get("rid")) or {}
+        fdecl = next((fl for fl in rec.get("fields", []) if fl.get("d") == ini.get("d")), None)
+        if fdecl is not None and (fdecl.get("t") or {}).get("ref"):
+            for s, lv in self.ev_lv(st, fr, ie):
+                s.mem[("refbind", target)] = lv
+                self.emit(s, "STORE", target, self.addr(lv), loc=ie.get("loc"), extra={"init": True, "refbind": True})
+                outs.append(s)
+            return outs
         for s, v in self.ev(st, fr, ie):
             if self.is_rec(it) or (isinstance(v, tuple) and v and v[0] in ("tmp",) and s.mem.get(v, (None,))[0] == "closure"):
                 self.copy_object(s, target, v)
